@@ -206,7 +206,7 @@ def run_C18(run):
         samples.append({'pattern': expr, 'product_states': st.get('product_states'), 'accepting_access_strings': accepted[:6]})
         cnt = {}
         v2 = []
-        sel = accepted if run.tier == 'thorough' else accepted[:60]
+        sel = accepted if run.tier == 'thorough' else (accepted[:20] + accepted[20::max(1, len(accepted) // 60)])
         try:
             _mk(f'{kind}()')
         except Exception as e:  # noqa: BLE001
@@ -220,7 +220,7 @@ def run_C18(run):
         # a few fixed well-known addresses, both directions, against ipaddress
         fixed = {'IPv4': ['0.0.0.0', '255.255.255.255', '256.1.1.1', '1.2.3', '1.2.3.4.5', '01.2.3.4', '1..2.3', '1.2.3.4.', '192.168.1.1', '25.255.249.250', '1.2.3.256'],
                  'IPv6': ['::', '::1', '1::', '1:2:3:4:5:6:7:8', '1:2:3:4:5:6:7::', '::2:3:4:5:6:7:8', '1:2:3::4:5:6:7:8', '1::2::3', ':::', '1:2:3:4:5:6:7',
-                          '12345::', 'g::', '1:2:3:4:5:6:7:8:9', '::1:2:3:4:5:6:7:8', 'FFFF:ffff::', '1:', ':1', '1:2:3:4::5:6:7', '1:2::3:4:5:6:7:8']}[kind]
+                          '12345::', 'g::', '1:2:3:4:5:6:7:8:9', '::1:2:3:4:5:6:7:8', 'FFFF:ffff::', '1:', ':1', '1:2:3:4::5:6:7', '1:2::3:4:5:6:7:8', '1:2::3:4:5:6:7', '1:2:3:4:5::6:7', '1::2:3:4:5:6:7', '1:2:3:4:5:6::7', 'a:b::c', '::ffff:1:2']}[kind]
         p = _mk(f'{kind}()')
         for s in fixed:
             tot['fixed_addresses'] = tot.get('fixed_addresses', 0) + 1
@@ -651,7 +651,10 @@ def run_C19(run):
     res = common.pmap(_task19, [([f], thorough) for f in fmts])
     pairs = [(f, g) for f in fmts for g in fmts if f != g]
     if not thorough:
-        pairs = [pq for i, pq in enumerate(pairs) if i % 5 == 0]
+        def layout(f):
+            sep = '/' if '/' in f else '-'
+            return sep, tuple(k[0] for k in f.split(sep))
+        pairs = [pq for i, pq in enumerate(pairs) if i % 5 == 0 or layout(pq[0]) == layout(pq[1])]
     res2 = common.pmap(_task19_pairs, common.chunks(pairs, 40))
     for viol, cnt in res + res2:
         run.add(viol)
